@@ -444,9 +444,16 @@ def _re_has(e, pred):
 _QUANT = ("star", "plus", "opt", "rep")
 
 
+def _re_count(e, pred):
+    if not isinstance(e, dict):
+        return 0
+    return (1 if pred(e) else 0) + sum(_re_count(e.get(k), pred) for k in ("a", "b"))
+
+
 def m_regex_not_longest(fail):
-    """C17: only missing selections (never extra ones), and the pattern tree has an alternation or a
-    repetition nested in a repetition - the shapes where a backtracking engine's first match is not the longest.
+    """C17: only missing selections (never extra ones), and the pattern tree has an alternation or at least two
+    variable-length constructs (repetitions / options) - the shapes where a backtracking engine can complete a match
+    at offset 0 before the end of the path and Regex::is_match() then gives up.
     Vectors carry no tree; the pattern text is inspected for '|' / nested groups then."""
     o = fail["obs"]
     if o.get("panic") or "exit" in o:
@@ -458,7 +465,7 @@ def m_regex_not_longest(fail):
     ast = fail["in"].get("ast")
     if ast is not None:
         return _re_has(ast, lambda e: e.get("t") == "alt") or \
-            _re_has(ast, lambda e: e.get("t") in _QUANT and _re_has(e.get("a"), lambda x: x.get("t") in _QUANT))
+            _re_count(ast, lambda e: e.get("t") in _QUANT) >= 2
     pat = bytes(fail["in"]["pattern"]).decode("utf-8", "replace") if all(c < 256 for c in fail["in"]["pattern"]) else ""
     return "|" in pat or pat.count("(") >= 2
 
